@@ -32,7 +32,8 @@ OffersAll == {<<"int", "lit", I("5")>>, <<"int", "var", Var("xi")>>, <<"int", "c
 Offers == IF Quick THEN {o \in OffersAll : o[2] \in {"var", "call", "grp", "app"} /\ ~(o[1] = "int" /\ o[2] = "call") /\ ~(o[1] = "sliceint" /\ o[2] = "call")} \cup {<<"string", "nil", Nil>>}
           ELSE OffersAll
 
-PosNames == {"not", "andL", "andR", "orL", "orR", "subL", "subR", "mulL", "mulR", "divL", "divR", "modL", "modR", "addIntL", "addIntR", "addStrL", "addStrR",
+NotT(e) == [k |-> "not", e |-> e, tight |-> TRUE]     \* written directly in front of its operand, also when that is a negation: !!x (F59, round 14)
+PosNames == {"not", "notnot", "notnotnot", "notnotCond", "notnotCase", "notGrpNot", "andL", "andR", "orL", "orR", "subL", "subR", "mulL", "mulR", "divL", "divR", "modL", "modR", "addIntL", "addIntR", "addStrL", "addStrR",
              "eqIntL", "eqIntR", "eqStrL", "eqStrR", "eqBoolL", "eqBoolR", "ltL", "ltR", "geL", "geR",
              "ifCond", "elifCond", "forCond", "for3Cond", "caseInt", "caseStr", "caseBool", "caseTagless", "switchTagVsInt",
              "idxSlice", "idxString", "substrLo", "substrHi", "substrOf", "indexOf", "setIdxIndex", "setIdxInt", "setIdxStr", "setIdxBool", "setIdxTarget",
@@ -44,6 +45,11 @@ FuncPosNames == {"retTop", "retIf", "retElse", "retFor", "retSwitch", "ret2nd", 
 
 Pos(p, h) ==
   CASE p = "not" -> <<Def1("r", Not(h))>>
+    [] p = "notnot" -> <<Def1("r", NotT(NotT(h)))>>
+    [] p = "notnotnot" -> <<Def1("r", NotT(NotT(NotT(h))))>>
+    [] p = "notnotCond" -> <<If1(NotT(NotT(h)), <<Asg1("xi", I("2"))>>)>>
+    [] p = "notnotCase" -> <<Switch(NoneN, <<CaseB(NotT(NotT(h)), <<Asg1("xi", I("2"))>>)>>, <<>>, FALSE)>>
+    [] p = "notGrpNot" -> <<Def1("r", Not(Grp(NotT(NotT(h)))))>>
     [] p = "andL" -> <<Def1("r", Lgc("&&", h, Var("xb")))>> [] p = "andR" -> <<Def1("r", Lgc("&&", Var("xb"), h))>>
     [] p = "orL" -> <<Def1("r", Lgc("||", h, Var("xb")))>> [] p = "orR" -> <<Def1("r", Lgc("||", Var("xb"), h))>>
     [] p = "subL" -> <<Def1("r", Bin("-", h, Var("xi")))>> [] p = "subR" -> <<Def1("r", Bin("-", Var("xi"), h))>>
